@@ -155,7 +155,7 @@ def main(pid, tier, seed):
     return conclude(pid, tier, seed, t0, proof, results, CONF[pid]["what"])
 
 
-def conclude(pid, tier, seed, t0, proof, results, what, failures_fn=None, extra_cov=None):
+def conclude(pid, tier, seed, t0, proof, results, what, failures_fn=None, extra_cov=None, features_fn=None):
     kf = lib.load_known_findings()
     violations, known, feats = [], [], {}
     nontrivial, samples, statuses = set(), [], {}
@@ -163,12 +163,17 @@ def conclude(pid, tier, seed, t0, proof, results, what, failures_fn=None, extra_
     for r in results:
         inst = r["inst"]
         h = lib.case_hash(inst)
-        fs = features(inst, r)
+        fs = (features_fn or features)(inst, r)
         for f in fs:
             feats[f] = feats.get(f, 0) + 1
         statuses[r["status"]] = statuses.get(r["status"], 0) + 1
         if r["status"] == "OK":
             answered += 1
+        if r.get("steps") or len(r.get("lines", {}).get("TRAJ", [])) > 1:
+            fs.add("accepted_steps")
+            feats["accepted_steps"] = feats.get("accepted_steps", 0) + 1
+        if r.get("ncand"):
+            fs.add("candidates")
         if fs and r["status"] == "OK":
             nontrivial.add(h)
         for (w, detail) in (failures_fn or failures)(pid, inst, r):
@@ -180,6 +185,8 @@ def conclude(pid, tier, seed, t0, proof, results, what, failures_fn=None, extra_
         if len(samples) < 2 and r.get("js"):
             samples.append({"instance": inst, "objectiveValue": r["js"]["objectiveValue"],
                             "stages": [l for (l, _) in r.get("chk", [])]})
+        elif len(samples) < 2 and (r.get("lines") or r.get("events")):
+            samples.append({"instance": inst, "observations": r.get("lines") or r.get("events")[:6]})
     rc = 0
     lines = []
     seen = set()
